@@ -13,6 +13,7 @@ from pydbml.classes import (Column, Enum, EnumItem, Expression, Index, Note, Pro
                             Table, TableGroup)
 from pydbml.renderer.dbml.default import DefaultDBMLRenderer as _DBML
 from pydbml.exceptions import TableNotFoundError, DBMLError
+from contracts.classes import render_via, owner_database, ELEMENT
 
 
 # what a DBML element renderer may refuse a degenerate model with (C17): a reference side that is empty or mixes
@@ -292,15 +293,22 @@ class dbml_render:
 # ------------------------------------------------------------------------------------------ C16: which renderer
 @contract('pydbml._classes.base:DBMLObject.dbml')
 class dbmlobject_dbml:
-    """x.dbml is R.render(x) with R the dbml_renderer of x's database when x is attached (for a column:
-    its table's database), else the default renderer class."""
-    tier = 'none'
-    params = {'self': 'Any'}
+    """x.dbml is R.render(x) with R the dbml_renderer of the database x is attached to — whatever that database
+    contains, an empty one included (for a column: its table's database) — and the default renderer class when x is
+    attached to none (C16).  `dbml_of(x)` is the name of the result at call sites; what it is, is the ensures."""
+    returns_defines = True
+    properties = ('C16',)
+    params = {'self': ELEMENT}
     pure = True
     ret = 'str'
+    allowed = REFUSALS + ('AttributeMissingError',)
 
     def returns(self):
         return dbml_of(self)
+
+    def ensures_configured_renderer(self, result):
+        return result == (render_via(owner_database(self).dbml_renderer, self) if owner_database(self) is not None
+                          else rendered_dbml(self))
 
 
 # ------------------------------------------------------------------------------------------ columns
